@@ -37,7 +37,7 @@ impl Prop for C11 {
         "C11"
     }
     fn rule(&self) -> &'static str {
-        "G-doc + mutation, widths 0..60, random option mixes, each rendered with and without allow_width_overflow; bound checked on table-free documents; non-trivial = the run without overflow is TooNarrow at width >= 1 (so the option matters) or Ok with >= 2 lines"
+        "G-doc + mutation, widths 0..60, + chains of 1..4 prefixed blocks around zero-minimum-width content at every width 0..12, random option mixes, each rendered with and without allow_width_overflow; bound checked on table-free documents; non-trivial = the run without overflow is TooNarrow at width >= 1 (so the option matters) or Ok with >= 2 lines"
     }
     fn cases(&self, r: &mut R, tier: Tier) -> Vec<Case> {
         let n = scale(tier, 2500, 40000);
@@ -52,6 +52,48 @@ impl Prop for C11 {
                 cfg.overflow = false;
                 let w = match r.b(10) { 0 => 0, 1..=6 => 1 + r.u(12), _ => 1 + r.u(60) };
                 v.push(case(bytes.clone(), cfg, w, if i % 6 == 5 { "g-mut" } else { "g-doc" }));
+            }
+        }
+        // chains of prefixed blocks around content whose minimum width is 0 (cells without text, markers only, zero-width
+        // text): at widths equal to the total prefix width the inner block legitimately gets 0 columns, which is where the
+        // run with overflow and the run without must still agree (added after the seeded change
+        // C11-overflow-width-minus-at-least-one was missed)
+        let nchain = scale(tier, 150, 3000);
+        for _ in 0..nchain {
+            let mut open = String::new();
+            let mut close = String::new();
+            for _ in 0..1 + r.u(4) {
+                let (o, c): (&str, &str) = match r.b(6) {
+                    0 => ("<ul><li>", "</li></ul>"),
+                    1 => ("<ol><li>", "</li></ol>"),
+                    2 => ("<blockquote>", "</blockquote>"),
+                    3 => ("<dl><dd>", "</dd></dl>"),
+                    4 => ("<h3>", "</h3>"),
+                    _ => ("<ol start=9><li>x</li><li>", "</li></ol>"),
+                };
+                open.push_str(o);
+                close.insert_str(0, c);
+            }
+            let inner: &str = r.pick(&[
+                "<table><tr><td></td></tr></table>",
+                "<table><tr><td></td></tr><tr><td></td></tr></table>",
+                "<table><tr><td><a name=\"x\"></a></td></tr></table>",
+                "<table><tr><td></td><td></td></tr></table>",
+                "<table><tr><td> </td></tr></table>",
+                "<a name=\"y\"></a>",
+                "<br>",
+                "&#x301;",
+                "<p></p>",
+                "<span id=\"z\"></span>",
+                "<table><tr><td>a</td></tr></table>",
+                "a",
+                "",
+            ]);
+            let html = format!("{open}{inner}{close}");
+            let mut cfg = mk_cfg(r, false);
+            cfg.overflow = false;
+            for w in 0..=12usize {
+                v.push(case(html.clone().into_bytes(), cfg.clone(), w, "prefix-chain"));
             }
         }
         v
